@@ -12,6 +12,10 @@ CLAIMED = {
  "C02": dict(cat="model_checking", tech=MC, ref="DESIGN.md §5 C02",
    text="same exhaustive exploration; per-transition zero-sum / supply / transfers / exact-due obligations whose conjunction gives the end-to-end statement by induction over the history",
    note=TRUST + "; vesting/locked user accounts are not in the alphabet"),
+ "C07": dict(cat="model_checking", tech=MC + " + exhaustive single-fault enumeration over the bank calls of every distinct effective block",
+   ref="DESIGN.md §5 C07",
+   text="(a) every explored state of the lifecycle and multi-auction scenarios x every later block instant: the module's registered block hook returns nil and does not panic; (b) for every distinct (state, block time) whose block calls the bank, each call index in turn returns an injected error and the hook must return an error wrapping it",
+   note=TRUST + "; failures other than bank-transfer errors (store errors) are not injected; at most 3 concurrent auctions"),
 }
 
 PENDING = {}  # property id -> reason, for properties not claimed (yet)
